@@ -58,10 +58,27 @@ async fn run_storm(a: &Args, m: &mut mon::Mon) {
         let seed = subseed(a, world_no);
         let mut r = storm::rng(seed);
         use rand::Rng;
-        let cfg = storm::StormCfg { n_banks: r.gen_range(3..=6), n_users: r.gen_range(3..=6), program_fees: r.gen_bool(0.6), magnitude: storm::pick(&mut r, &[0u8, 1, 1, 1, 2]), with_staked: false, n_isolated: 1, emode: r.gen_bool(0.3) };
+        let cfg = storm::StormCfg { n_banks: r.gen_range(3..=6), n_users: r.gen_range(3..=6), program_fees: r.gen_bool(0.6), magnitude: storm::pick(&mut r, &[0u8, 1, 1, 1, 2]), with_staked: a.prop == "C16" && r.gen_bool(0.6), n_isolated: 1, emode: r.gen_bool(0.3) };
         let (mut w, mut s) = storm::Storm::build(seed, cfg).await;
         let steps = if a.tier == "thorough" { 6000 } else { 1500 };
-        for _ in 0..steps {
+        for k in 0..steps {
+            if k % 500 == 400 {
+                // one bank sunset per 500 steps: token-less write-off, purge (C01 exception, C02, C03)
+                w.refresh_oracles();
+                let g = s.g;
+                let nb = w.banks.len();
+                let cands: Vec<usize> = (0..nb).filter(|b| scen::usable_collateral(&w, *b)).collect();
+                let dbs: Vec<usize> = (0..nb).filter(|b| w.bank(*b).config.operational_state == marginfi_type_crate::types::BankOperationalState::Operational && w.bank(*b).config.asset_tag <= 1).collect();
+                if !cands.is_empty() && dbs.len() > 1 {
+                    let ca = storm::pick(&mut r, &cands);
+                    let db = storm::pick(&mut r, &dbs);
+                    if ca != db {
+                        if let Some(lev) = scen::setup_leveraged(&mut w, m, &mut r, g, s.liquidator, ca, db, 0.8).await {
+                            scen::sunset(&mut w, m, &mut r, &lev, g, s.liquidator).await;
+                        }
+                    }
+                }
+            }
             s.step(&mut w, m).await;
             if t0.elapsed() >= a.budget {
                 break;
@@ -207,6 +224,9 @@ async fn run_admin(a: &Args, m: &mut mon::Mon) {
                             if a.prop == "C12" {
                                 scen::scale_price_any(&mut w, ca, 0.7).await;
                                 scen::deleverage(&mut w, m, &mut r, &lev, g).await;
+                                if r.gen_bool(0.4) {
+                                    scen::sunset(&mut w, m, &mut r, &lev, g, s.liquidator).await;
+                                }
                             }
                         }
                     }
